@@ -64,6 +64,13 @@ Theorem C15_unfill_inverts_fill : forall cw alnum lbc custom_sp ofit o (words : 
                      (if many groups || ht then o_le o else LE_LF)).
 Proof. exact unfill_fill. Qed.
 
+(* tie to the source text: unfill's prefix characters are the literals of `prefix_chars`
+   in /repo/src/refill.rs on this run *)
+From TW Require Import SrcConsts SrcConstsFacts.
+Theorem C15_source_constants : forall c, is_prefix_char c = existsb (N.eqb c) src_prefix_chars.
+Proof. exact src_prefix_chars_ok. Qed.
+Print Assumptions C15_source_constants.
+
 Print Assumptions C15_unfill_inverts_fill.
 Print Assumptions C15_roundtrip.
 Print Assumptions C15_total.
